@@ -644,7 +644,7 @@ FIELDS["C10"] = ["budget", "hang", "crash", "panic", "spans"]
 RULES["C10"] = ("programs: C10_Bodies of spec/Scope.tla: loops {maybe, at least 0/1/2, at most 2} greedy and fewest nested to "
                 "depth 3 over nullable bodies (all anchors and negations, (), maybe 'a', 'a' or (), nullable captures, calls "
                 "of nullable subroutines, not in, lazy any*) x all strings over {a,space,newline} up to the tier's length; "
-                "the real engine runs under an instruction budget of 1000 x the model's step count + 10^4; non-trivial = "
+                "the real engine runs under an instruction budget of 20 x the model's step count + 10^4 (the engine and the model agree on the exact step count of every run); non-trivial = "
                 "the model needs more than 20 instructions")
 
 
@@ -657,7 +657,7 @@ def c10(ctx):
     cases = ctx.gen_cases("C10")
     exps, st = vm_oracle(ctx, "terminate", cap_texts(cases), max_steps=20000)
     nontriv = sum(1 for e in exps for r in e["r"] if r["steps"] > 20)
-    rep = ctx.replay("C10-budget", cases, FIELDS["C10"], exps=exps, extra=["-budget-mul", "1000"], timeout=60)
+    rep = ctx.replay("C10-budget", cases, FIELDS["C10"], exps=exps, extra=["-budget-mul", "20"], timeout=20)
     ctx.nontrivial = nontriv
     ctx.diagnostics["max_model_steps"] = max(r["steps"] for e in exps for r in e["r"])
     # sensitivity: without the zero-width guard the model spins
